@@ -4,4 +4,5 @@ var vHarnesses = map[string]func(){
 	"VH_C20F": VH_C20F,
 	"VH_C20P": VH_C20P,
 	"VH_C20D": VH_C20D,
+	"VH_C20M": VH_C20M,
 }
